@@ -451,7 +451,7 @@ impl LineProgram {
 
         if line_advance != 0 {
             let special_line = (line_advance as u64).wrapping_sub(line_base);
-            if special_line < line_range {
+            if special_line < line_range && special_base + special_line <= 255 {
                 special = special_base + special_line;
                 use_special = true;
             } else {
@@ -462,16 +462,22 @@ impl LineProgram {
 
         if op_advance != 0 {
             // Using ConstAddPc can save a byte.
-            let (special_op_advance, const_add_pc) = if special + op_advance * line_range <= 255 {
+            // Whether a special opcode can also encode the given operation advance.
+            let special_for = |op_advance: u64| {
+                op_advance
+                    .checked_mul(line_range)
+                    .and_then(|special_op| special_op.checked_add(special))
+                    .filter(|special| *special <= 255)
+            };
+            let (special_op_advance, const_add_pc) = if special_for(op_advance).is_some() {
                 (op_advance, false)
             } else {
                 let op_range = (255 - special_base) / line_range;
                 (op_advance - op_range, true)
             };
 
-            let special_op = special_op_advance * line_range;
-            if special + special_op <= 255 {
-                special += special_op;
+            if let Some(special_with_op) = special_for(special_op_advance) {
+                special = special_with_op;
                 use_special = true;
                 if const_add_pc {
                     self.instructions.push(LineInstruction::ConstAddPc);
